@@ -18,33 +18,34 @@
 // MUTATION LOG (sensitivity; each mutation applied alone to a private copy of the instrumented
 // overlay, never to /repo; 6 workers, budget 25-40 s; "runs" = runs executed by all workers until
 // every worker had its first violation minimised):
-//   required by DESIGN.md / the task
-//   M1  getConnsToClose: grace comparison inverted (!firstSeen.After)      -> closed-in-grace, left-above-low, lower-valued-kept, entry-forgotten (1st run of every worker)
-//   M2  getConnsToClose: protected check dropped                           -> closed-protected/TrimOpenConns and /background-trim (16 runs)
-//   M3  SortByValueAndStreams: left.value > right.value                    -> lower-valued-kept/TrimOpenConns and /background-trim (9 runs)
-//   M4a Disconnected: connCount.Add(-1) removed                            -> conn-count/too-high (7 runs)
-//   M4b Disconnected: extra connCount.Add(-1) for an untracked connection  -> conn-count/too-low (8 runs)
-//   M5  UpsertTag: value not updated                                       -> tag-total/value (6 runs)
-//   M6  getConnsToCloseEmergency: protected peers not skipped in phase 1   -> forced-protected-before-unprotected (22 runs)
-//   M7  getConnsToClose: target = ncandidates-low-1                        -> left-above-low/TrimOpenConns and /background-trim (11 runs)
-//   additional
-//   M8  Connected: duplicate notification counted                          -> conn-count/too-high
-//   M9  decayer: bump not added to value                                   -> tag-total/value
-//   M10 Connected: firstSeen not refreshed when an early-tag entry converts-> first-seen
-//   M11 getConnsToClose: grace period halved                               -> closed-in-grace
-//   M13 UntagPeer / M14 decay tick / M21 TagPeer: value not (or wrongly) updated -> tag-total/value
-//   M16 getConnsToClose: all three comparisons use low-1                   -> closed-at-or-below-low/TrimOpenConns
-//   M17 ForceTrim: target = count-low+1                                    -> closed-at-or-below-low/ForceTrim
-//   M18 Disconnected: entry kept after the last connection                 -> tag-total/tags, first-seen
-//   M19 Protect: replaces the tag set / M22 Unprotect: leaves an empty set -> protect-result
-//   M20 getConnsToClose: one connection per selected peer                  -> left-above-low
-//   MC2 Connected: connCount load / scheduling point / store (visible under concurrency only)
-//                                                                          -> conn-count/sampled, conn-count/too-low (about 100 runs)
-//   MC4 TagPeer: value read, segment lock released, value written (concurrency only: races with the decayer)
-//                                                                          -> tag-total/value (about 500-700 runs)
-//   not caught, equivalent mutants: M12 "count <= low" early return removed, M15 "ncandidates < low" early
-//   return removed (target <= 0 in both cases, so nothing is selected anyway).
-//   Unchanged tree: only the finding above (about 1 run in 2 000-5 000); nothing else in >150 000 runs.
+//
+//	required by DESIGN.md / the task
+//	M1  getConnsToClose: grace comparison inverted (!firstSeen.After)      -> closed-in-grace, left-above-low, lower-valued-kept, entry-forgotten (1st run of every worker)
+//	M2  getConnsToClose: protected check dropped                           -> closed-protected/TrimOpenConns and /background-trim (16 runs)
+//	M3  SortByValueAndStreams: left.value > right.value                    -> lower-valued-kept/TrimOpenConns and /background-trim (9 runs)
+//	M4a Disconnected: connCount.Add(-1) removed                            -> conn-count/too-high (7 runs)
+//	M4b Disconnected: extra connCount.Add(-1) for an untracked connection  -> conn-count/too-low (8 runs)
+//	M5  UpsertTag: value not updated                                       -> tag-total/value (6 runs)
+//	M6  getConnsToCloseEmergency: protected peers not skipped in phase 1   -> forced-protected-before-unprotected (22 runs)
+//	M7  getConnsToClose: target = ncandidates-low-1                        -> left-above-low/TrimOpenConns and /background-trim (11 runs)
+//	additional
+//	M8  Connected: duplicate notification counted                          -> conn-count/too-high
+//	M9  decayer: bump not added to value                                   -> tag-total/value
+//	M10 Connected: firstSeen not refreshed when an early-tag entry converts-> first-seen
+//	M11 getConnsToClose: grace period halved                               -> closed-in-grace
+//	M13 UntagPeer / M14 decay tick / M21 TagPeer: value not (or wrongly) updated -> tag-total/value
+//	M16 getConnsToClose: all three comparisons use low-1                   -> closed-at-or-below-low/TrimOpenConns
+//	M17 ForceTrim: target = count-low+1                                    -> closed-at-or-below-low/ForceTrim
+//	M18 Disconnected: entry kept after the last connection                 -> tag-total/tags, first-seen
+//	M19 Protect: replaces the tag set / M22 Unprotect: leaves an empty set -> protect-result
+//	M20 getConnsToClose: one connection per selected peer                  -> left-above-low
+//	MC2 Connected: connCount load / scheduling point / store (visible under concurrency only)
+//	                                                                       -> conn-count/sampled, conn-count/too-low (about 100 runs)
+//	MC4 TagPeer: value read, segment lock released, value written (concurrency only: races with the decayer)
+//	                                                                       -> tag-total/value (about 500-700 runs)
+//	not caught, equivalent mutants: M12 "count <= low" early return removed, M15 "ncandidates < low" early
+//	return removed (target <= 0 in both cases, so nothing is selected anyway).
+//	Unchanged tree: only the finding above (about 1 run in 2 000-5 000); nothing else in >150 000 runs.
 //
 // Not part of C14 but recorded (probe forcetrim-left-above-low-overall; C14_FORCETRIM_DOC=1 turns it into
 // class C14/doc/forcetrim-left-above-low): ForceTrim's documentation promises "down to the low watermark"
@@ -134,8 +135,86 @@ type mpeer struct {
 	firstSeen time.Duration
 	prot      map[string]bool
 
-	unc  bool // tags/value/first-seen are ambiguous (overlapping operations whose order decides the result)
-	wins []*win
+	unc      bool // tags/value/first-seen are ambiguous (overlapping operations whose order decides the result)
+	popsSeen int
+	shared   bool // several tasks operate on this peer in the concurrent phase (shared-peer mode)
+	wins     []*win
+	pops     []*pop // every Protect/Unprotect call on the peer, with its window
+}
+
+// pop is one Protect/Unprotect call.
+type pop struct {
+	tag      string
+	protect  bool
+	inv, ret uint64
+}
+
+// tagCertainlySet: some Protect(tag) returned before a, and every Unprotect(tag) either returned before
+// that Protect was invoked or was invoked after b — the tag is set during the whole of [a,b] whatever
+// the linearisation of the calls.
+func (p *mpeer) tagCertainlySet(tag string, a, b uint64) bool {
+	for _, A := range p.pops {
+		if !A.protect || A.tag != tag || A.ret >= a {
+			continue
+		}
+		ok := true
+		for _, U := range p.pops {
+			if U.protect || U.tag != tag {
+				continue
+			}
+			if !(U.ret < A.inv || U.inv > b) {
+				ok = false
+				break
+			}
+		}
+		if ok {
+			return true
+		}
+	}
+	return false
+}
+
+// tagCertainlyUnset: every Protect(tag) invoked before b is followed by an Unprotect(tag) that was invoked
+// after the Protect returned and returned before a.
+func (p *mpeer) tagCertainlyUnset(tag string, a, b uint64) bool {
+	for _, A := range p.pops {
+		if !A.protect || A.tag != tag || A.inv > b {
+			continue
+		}
+		ok := false
+		for _, U := range p.pops {
+			if !U.protect && U.tag == tag && U.inv > A.ret && U.ret < a {
+				ok = true
+				break
+			}
+		}
+		if !ok {
+			return false
+		}
+	}
+	return true
+}
+
+var protTags = []string{"a", "b", "c"}
+
+// certProt: the peer holds at least one protection tag during the whole of [a,b] by every linearisation.
+func (p *mpeer) certProt(a, b uint64) bool {
+	for _, t := range protTags {
+		if p.tagCertainlySet(t, a, b) {
+			return true
+		}
+	}
+	return false
+}
+
+// certUnprot: the peer holds no protection tag at any moment of [a,b] by every linearisation.
+func (p *mpeer) certUnprot(a, b uint64) bool {
+	for _, t := range protTags {
+		if !p.tagCertainlyUnset(t, a, b) {
+			return false
+		}
+	}
+	return true
 }
 
 func (p *mpeer) value() int {
@@ -276,7 +355,6 @@ type closeRec struct {
 type psnap struct {
 	value     int
 	unc       bool
-	prot      bool
 	exists    bool
 	temp      bool
 	firstSeen time.Duration
@@ -348,9 +426,11 @@ type H struct {
 	lastT     time.Duration
 	instStart uint64
 
-	mutations int
-	sig       strings.Builder
-	forgot    map[*mpeer]bool // peers whose tracked connections the manager demonstrably lost (reported by compare)
+	mutations    int
+	storm        bool // protect-storm sub-mode: no sampled connection reads between the operations (they dilute the races)
+	finalCompare bool
+	sig          strings.Builder
+	forgot       map[*mpeer]bool // peers whose tracked connections the manager demonstrably lost (reported by compare)
 }
 
 func (h *H) now() time.Duration { return time.Since(h.t0) }
@@ -386,6 +466,9 @@ func (h *H) pastGraceAt(p *psnap, at time.Duration) bool {
 func (h *H) begin(mp *mpeer, kind int) *win {
 	h.touch()
 	h.tempRisk(mp)
+	if h.concurrent && mp.shared && kind&(wVal|wAdd|wRem) != 0 {
+		mp.unc = true // several tasks write the same peer: the model cannot follow tags / first-seen
+	}
 	if kind&wRem != 0 && mp.inflight(wVal|wAdd) || kind&(wVal|wAdd) != 0 && mp.inflight(wRem) {
 		// a Disconnected that may delete the entry races with a tag operation / Connected:
 		// which tags survive and when the peer was first seen depends on the order
@@ -507,7 +590,7 @@ func (h *H) snapshot(rec *trimRec) {
 	rec.snap = make([]psnap, len(h.peers))
 	for i, mp := range h.peers {
 		h.tempRisk(mp)
-		rec.snap[i] = psnap{value: mp.value(), unc: mp.unc, prot: len(mp.prot) > 0, exists: mp.exists, temp: mp.temp,
+		rec.snap[i] = psnap{value: mp.value(), unc: mp.unc, exists: mp.exists, temp: mp.temp,
 			firstSeen: mp.firstSeen, conns: mp.sortedConns()}
 	}
 }
@@ -576,10 +659,18 @@ type op struct {
 	kind, peer, a, b, c int
 }
 
-func genOps(g simrt.Gen, n int, peers []int) []op {
+// sharedWeights: shared-peer mode — several tasks write the same peers' tags and protection sets.
+// No duplicate notifications there (a duplicate Connected racing a Disconnected of the same connection
+// would make the tracked set itself order-dependent).
+var sharedWeights = []int{3, 0, 2, 0, 5, 3, 8, 2, 0, 8, 8, 2, 5, 1, 1, 0}
+
+// protectStormWeights: shared-peer mode dominated by Protect/Unprotect calls of several tasks on one peer.
+var protectStormWeights = []int{2, 0, 1, 0, 2, 1, 3, 1, 0, 12, 12, 1, 4, 1, 1, 0}
+
+func genOps(g simrt.Gen, n int, peers []int, weights []int) []op {
 	ops := make([]op, n)
 	for i := range ops {
-		ops[i] = op{kind: g.Weighted(opWeights...), peer: peers[g.Int(len(peers))], a: g.Int(24), b: g.Int(8), c: g.Int(6)}
+		ops[i] = op{kind: g.Weighted(weights...), peer: peers[g.Int(len(peers))], a: g.Int(24), b: g.Int(8), c: g.Int(6)}
 	}
 	return ops
 }
@@ -621,7 +712,11 @@ func (h *H) exec(who string, i int, o op) {
 		if len(h.o.Violations) > 0 {
 			return
 		}
-		h.sampledCheck(mp, fmt.Sprintf("before %s#%d", who, i))
+		// (shared peers: after the operation only — every read is a scheduling point that makes the
+		// multi-call races between the writers less likely)
+		if !mp.shared {
+			h.sampledCheck(mp, fmt.Sprintf("before %s#%d", who, i))
+		}
 		defer func() { h.sampledCheck(mp, fmt.Sprintf("after %s#%d", who, i)) }()
 	}
 	switch o.kind {
@@ -690,10 +785,19 @@ func (h *H) exec(who string, i int, o op) {
 			f = func(v int) int { return 2*v + 1 }
 			desc = "2v+1"
 		}
-		logf("UpsertTag(%s, %s, %s)", mp.name, tag, desc)
+		ny := (o.a + o.b) % 4
+		logf("UpsertTag(%s, %s, %s) callback yields %d times", mp.name, tag, desc, ny)
 		var saw, calls int
 		w := h.begin(mp, wVal)
-		cm.UpsertTag(mp.id, tag, func(v int) int { saw = v; calls++; return f(v) })
+		cm.UpsertTag(mp.id, tag, func(v int) int {
+			saw = v
+			calls++
+			// caller-supplied code may take time: scheduling points inside the callback
+			for k := 0; k < ny; k++ {
+				simrt.Yield("c14.upsert-callback")
+			}
+			return f(v)
+		})
 		h.end(w, func() {
 			h.ensure(mp)
 			if calls != 1 {
@@ -744,14 +848,25 @@ func (h *H) exec(who string, i int, o op) {
 		tag := string(rune('a' + o.b%3))
 		logf("Protect(%s, %s)", mp.name, tag)
 		w := h.begin(mp, wProt)
+		po := &pop{tag: tag, protect: true, inv: w.inv, ret: inf}
+		mp.pops = append(mp.pops, po)
 		cm.Protect(mp.id, tag)
 		h.end(w, func() { mp.prot[tag] = true })
+		po.ret = w.ret
 	case opUnprotect:
 		tag := string(rune('a' + o.b%3))
 		w := h.begin(mp, wProt)
+		po := &pop{tag: tag, inv: w.inv, ret: inf}
+		mp.pops = append(mp.pops, po)
 		still := cm.Unprotect(mp.id, tag)
 		h.end(w, func() { delete(mp.prot, tag) })
+		po.ret = w.ret
 		logf("Unprotect(%s, %s) = %v", mp.name, tag, still)
+		if h.concurrent && mp.shared {
+			// other tasks protect/unprotect the same peer: results are not predictable; two reads as extra scheduling
+			cm.IsProtected(mp.id, string(rune('a'+o.a%3)))
+			return
+		}
 		if still != (len(mp.prot) > 0) {
 			h.o.Violate("C14/protect-result", "Unprotect(%s,%s) = %v, protection tags left in the model: %v", mp.name, tag, still, keys(mp.prot))
 		}
@@ -953,6 +1068,32 @@ func sameTags(a, b map[string]int) bool {
 // Disconnected, so every tracked connection for which no Disconnected was ever begun must be
 // listed; an entry that only holds early tags and is still inside the grace period cannot vanish.
 func (h *H) sampledCheck(mp *mpeer, when string) {
+	// protection: a tag that is set by every linearisation during the whole read must be reported
+	// (peers written by one task only are covered exactly by the checks in exec)
+	for _, t := range protTags {
+		if !mp.shared {
+			break
+		}
+		h.touch()
+		inv := simrt.Stamp()
+		if !mp.tagCertainlySet(t, inv, inv) {
+			continue
+		}
+		got := h.cm.IsProtected(mp.id, t)
+		h.touch()
+		ret := simrt.Stamp()
+		if !mp.tagCertainlySet(t, inv, ret) {
+			continue
+		}
+		h.o.Probe("sampled-protect-check")
+		if !got {
+			h.o.Violate("C14/protect-state", "%s: IsProtected(%s,%s) = false, but by every linearisation of the Protect/Unprotect calls the tag was set during the whole read", when, mp.name, t)
+			return
+		}
+	}
+	if h.storm {
+		return
+	}
 	var cand []*sconn
 	for _, c := range mp.sortedConns() {
 		if c.firstRemIn == 0 {
@@ -1061,6 +1202,39 @@ func (h *H) compare(when string) {
 				}
 			}
 		}
+		// protection state: what every linearisation of the completed Protect/Unprotect calls agrees on
+		if len(mp.pops) != mp.popsSeen || h.finalCompare {
+			mp.popsSeen = len(mp.pops)
+			now := simrt.Stamp()
+			anySet, allUnset := false, true
+			for _, t := range protTags {
+				set, unset := mp.tagCertainlySet(t, now, now), mp.tagCertainlyUnset(t, now, now)
+				anySet = anySet || set
+				allUnset = allUnset && unset
+				if !set && !unset {
+					continue
+				}
+				if got := h.cm.IsProtected(mp.id, t); got != set {
+					h.o.Violate("C14/protect-state", "%s: IsProtected(%s,%s) = %v, but by every linearisation of the completed Protect/Unprotect calls the tag is %s", when, mp.name, t, got, map[bool]string{true: "set", false: "not set"}[set])
+				}
+			}
+			if anySet || allUnset {
+				if got := h.cm.IsProtected(mp.id, ""); got != anySet {
+					h.o.Violate("C14/protect-state", "%s: IsProtected(%s,\"\") = %v, but by every linearisation of the completed Protect/Unprotect calls the peer holds %s", when, mp.name, got, map[bool]string{true: "a protection tag", false: "no protection tag"}[anySet])
+				}
+			}
+		}
+		// the cached total must be the sum of the tags the manager itself reports, whatever the history was
+		if obs != nil {
+			sum := 0
+			for _, v := range obs.Tags {
+				sum += v
+			}
+			if obs.Value != sum {
+				h.o.Violate("C14/tag-total/value-vs-tags", "%s: GetTagInfo(%s).Value = %d, but its Tags %s sum to %d", when, mp.name, obs.Value, fmtTags(obs.Tags), sum)
+				continue
+			}
+		}
 		if mp.unc {
 			if h.concurrent {
 				continue
@@ -1155,15 +1329,35 @@ func run(t *testing.T, tape *simrt.Tape) *common.Outcome {
 	}
 	var prefix []op
 	var plans [][]op
+	var sharedSet []int
 	if !concurrent {
-		prefix = genOps(g, g.Range(20, 80), all)
+		prefix = genOps(g, g.Range(20, 80), all, opWeights)
 	} else {
-		prefix = genOps(g, g.Range(5, 30), all)
+		prefix = genOps(g, g.Range(5, 30), all, opWeights)
 		nT := g.Range(2, 4)
 		// no stalls (h.stall stays 0): every stall lets several background/decayer ticks fire, each of which
 		// costs hundreds of scheduling steps (256 segment locks), each step being a new chance to stall —
 		// the run diverges. Timers still race with ready work at the instants where tasks wake together.
+		// shared-peer mode (drawn): every task operates on the same one or two peers
+		sw := sharedWeights
+		if g.Chance(1, 2) {
+			if g.Bool() {
+				sw = protectStormWeights
+				h.storm = true
+			}
+			nShared := g.Range(1, 2)
+			if nShared > nPeers {
+				nShared = nPeers
+			}
+			for i := 0; i < nShared; i++ {
+				sharedSet = append(sharedSet, i)
+			}
+		}
 		for k := 0; k < nT; k++ {
+			if sharedSet != nil {
+				plans = append(plans, genOps(g, g.Range(5, 20), sharedSet, sw))
+				continue
+			}
 			// every peer is operated on by one task only (its operations are sequential); trims,
 			// deliveries of Disconnected, the decayer and the background loop run concurrently
 			var own []int
@@ -1175,7 +1369,7 @@ func run(t *testing.T, tape *simrt.Tape) *common.Outcome {
 			if len(own) == 0 {
 				own = []int{k % nPeers}
 				// would share a peer with another task: give it trims and sleeps only (below)
-				ops := genOps(g, g.Range(5, 20), own)
+				ops := genOps(g, g.Range(5, 20), own, opWeights)
 				for i := range ops {
 					switch ops[i].kind {
 					case opSleep, opTrim, opForce, opRead, opCheckLimit:
@@ -1186,11 +1380,15 @@ func run(t *testing.T, tape *simrt.Tape) *common.Outcome {
 				plans = append(plans, ops)
 				continue
 			}
-			plans = append(plans, genOps(g, g.Range(5, 20), own))
+			plans = append(plans, genOps(g, g.Range(5, 20), own, opWeights))
 		}
 	}
+	stratum := map[bool]string{false: "sequential", true: "concurrent"}[concurrent]
+	if sharedSet != nil {
+		stratum = fmt.Sprintf("concurrent/shared-peers(%d)", len(sharedSet))
+	}
 	o.Logf("stratum=%s low=%d high=%d grace=%v silence=%v resolution=%v peers=%d decaying-tags=%d stall=%d",
-		map[bool]string{false: "sequential", true: "concurrent"}[concurrent], h.low, h.high, h.grace, h.silence, h.resol, nPeers, nD, h.stall)
+		stratum, h.low, h.high, h.grace, h.silence, h.resol, nPeers, nD, h.stall)
 	for _, mp := range h.peers {
 		o.Logf(" %s id=%q", mp.name, string(mp.id))
 	}
@@ -1229,6 +1427,9 @@ func run(t *testing.T, tape *simrt.Tape) *common.Outcome {
 		}
 		if concurrent && len(o.Violations) == 0 && o.Trouble == "" {
 			h.concurrent = true
+			for _, i := range sharedSet {
+				h.peers[i].shared = true
+			}
 			var wg simsync.WaitGroup
 			for k, plan := range plans {
 				wg.Add(1)
@@ -1245,6 +1446,7 @@ func run(t *testing.T, tape *simrt.Tape) *common.Outcome {
 		// let every pending Disconnected be delivered and every queued bump be applied, compare; then
 		// one last trim at a quiescent instant (every oracle applies to it, whatever the history was)
 		h.concurrent = false
+		h.finalCompare = true
 		h.flush()
 		if len(o.Violations) == 0 && o.Trouble == "" {
 			h.compare("at the end")
@@ -1387,8 +1589,8 @@ func (h *H) checkTrims() {
 			if r.kind == kForce {
 				continue
 			}
-			if s.prot && !mp.changed(wProt, r.inv, r.ret) {
-				o.Violate("C14/closed-protected/"+name, "trim %d (%s) closed c%d of %s, protected during the whole call", ti, name, c.c.idx, mp.name)
+			if mp.certProt(r.inv, r.ret) {
+				o.Violate("C14/closed-protected/"+name, "trim %d (%s) closed c%d of %s, which held a protection tag during the whole call by every linearisation of the Protect/Unprotect calls", ti, name, c.c.idx, mp.name)
 			}
 			if len(s.conns) > 0 && !s.unc && !mp.changed(wAdd|wRem|wLife, r.inv, c.stamp) && h.inGraceAt(s, c.at) {
 				o.Violate("C14/closed-in-grace/"+name, "trim %d (%s) closed c%d of %s at +%v: first seen +%v, grace period %v", ti, name, c.c.idx, mp.name, c.at, s.firstSeen, h.grace)
@@ -1403,7 +1605,7 @@ func (h *H) checkTrims() {
 		if r.precise {
 			for _, mp := range h.peers {
 				s := &r.snap[mp.idx]
-				if len(s.conns) == 0 || s.unc || s.prot || h.forgot[mp] || mp.changed(wProt|wAdd|wRem|wLife, r.inv, r.ret) {
+				if len(s.conns) == 0 || s.unc || !mp.certUnprot(r.inv, r.ret) || h.forgot[mp] || mp.changed(wAdd|wRem|wLife, r.inv, r.ret) {
 					continue
 				}
 				if r.kind != kForce && !h.pastGraceAt(s, r.invT) {
@@ -1430,7 +1632,7 @@ func (h *H) checkTrims() {
 			if s.unc || mp.changed(wVal, r.inv, fc) {
 				continue
 			}
-			if r.kind == kForce && (s.prot || mp.changed(wProt, r.inv, fc)) {
+			if r.kind == kForce && !mp.certUnprot(r.inv, fc) {
 				continue
 			}
 			for _, k := range keptElig {
@@ -1445,7 +1647,9 @@ func (h *H) checkTrims() {
 			}
 		}
 		// (d) at most low-watermark connections left among the eligible peers
-		if r.precise && alone && !anyChanged(wAdd|wProt) {
+		// (kept peers were certainly unprotected for the whole window, i.e. candidates when the trim collected them;
+		// protection changes of other peers do not enter the trim's arithmetic)
+		if r.precise && alone && !anyChanged(wAdd) {
 			left := 0
 			var who []string
 			for _, k := range keptElig {
@@ -1470,7 +1674,7 @@ func (h *H) checkTrims() {
 		if r.kind == kForce {
 			var protClosed *mpeer
 			for mp := range firstClose {
-				if r.snap[mp.idx].prot && !mp.changed(wProt, r.inv, r.ret) && (protClosed == nil || mp.idx < protClosed.idx) {
+				if mp.certProt(r.inv, r.ret) && (protClosed == nil || mp.idx < protClosed.idx) {
 					protClosed = mp
 				}
 			}
@@ -1478,7 +1682,7 @@ func (h *H) checkTrims() {
 				o.Probe("forced-trim-closed-protected")
 				for _, mp := range h.peers {
 					s := &r.snap[mp.idx]
-					if s.prot || len(s.conns) == 0 || h.forgot[mp] || mp.changed(wProt|wAdd|wRem, r.inv, r.ret) {
+					if !mp.certUnprot(r.inv, r.ret) || len(s.conns) == 0 || h.forgot[mp] || mp.changed(wAdd|wRem, r.inv, r.ret) {
 						continue
 					}
 					for _, c := range s.conns {
@@ -1513,7 +1717,7 @@ func (h *H) checkTrims() {
 		if r.kind != kForce && r.count > h.low {
 			for _, mp := range h.peers {
 				s := &r.snap[mp.idx]
-				if len(s.conns) > 0 && s.prot {
+				if len(s.conns) > 0 && mp.certProt(r.inv, r.ret) {
 					o.Probe("trim-with-protected-peer-above-low")
 				}
 				if len(s.conns) > 0 && h.inGraceAt(s, r.invT) {
